@@ -245,3 +245,12 @@ Proof.
   destruct (set_cw_fold regs 0) as [F0 [F1 _]]. unfold cw_bound in A. split; [|split; [lia|exact B]].
   intros r Hr. specialize (F1 r Hr). lia.
 Qed.
+
+(* ---------- ValidateReadTS fast path: a read ts not beyond the cached one is accepted without asking PD ---------- *)
+Lemma validate_from_cache : forall st scope read stale pds l,
+  get_last st scope = Some l -> read <= l -> validate_pre read stale = None ->
+  validate_seq true st scope read stale pds = (st, VAccept, O).
+Proof.
+  intros st scope read stale pds l H Hle Hpre. unfold validate_seq. cbn [negb]. rewrite Hpre.
+  cbn [validate_loop]. rewrite H. assert (E : (read <=? l) = true) by lia. rewrite E. reflexivity.
+Qed.
